@@ -13,9 +13,10 @@
   * `xmlWrite / jsonWrite` : the writers, element by element.
   * `xmlRead / jsonRead`   : the readers driven by the GENERIC decoder (`Value.TagDecodeTTLV`,
                `Struct.TagDecodeTTLV`: the tag asked for is the element's own tag, a child whose tag reads
-               0 ends the structure).  `Hints` says, per tag, which `realtag` a typed caller would pass to
-               `Decoder.Enum` and whether it would call `Decoder.Bitmask` instead of `Decoder.Integer`
-               (the generic decoder: `noHints`).
+               0 ends the structure).  `Hints` says, per POSITION in the message (path of child indices)
+               and tag, which `realtag` a typed caller would pass to `Decoder.Enum` and whether it would
+               call `Decoder.Bitmask` instead of `Decoder.Integer` (the generic decoder: `noHints`; hints
+               that look at the tag only: `Hints.ofTag`).
   * The XML reader is a CURSOR over the token stream (`xmlReader` shares one `xml.Decoder` between a
     structure and its sub-reader): `Next` skips the content of the current element unless it is a
     structure whose content `Struct` has consumed (`entered`, since /repo 7083171: before, an unread
@@ -49,11 +50,20 @@ structure Tables where
 def Tables.tagOfText (T : Tables) (s : List Nat) : Int :=
   if T.oldTags then tagFromTextOld T.tagByName s else tagFromText T.tagByName s
 
-/-- `time.Time.Format(time.RFC3339)` and `time.Parse(time.RFC3339, ·)` (then `.Unix()`), on whole
-    seconds, and the test `0 ≤ t.Local().Year() ≤ 9999` the readers apply to a parsed instant (since
-    /repo df9dac3: a zone offset can move an accepted text out of what `Format` can express; a reader
-    without the test is `inYears := fun _ => true`).  Trusted standard-library behaviour: a PARAMETER,
-    with its laws as an explicit hypothesis of the theorems (`Rfc3339.Lawful` in `Lemmas/LexLemmas.lean`). -/
+/-- `time.Time.Format(time.RFC3339)` IN THE LOCATION THE WRITERS FORMAT IN and
+    `time.Parse(time.RFC3339, ·)` (then `.Unix()`), on whole seconds, and the year test `0 ≤ year ≤ 9999`
+    (in that same location) the readers apply to a parsed instant (since /repo df9dac3: a zone offset can
+    move an accepted text out of what `Format` can express; a reader without the test is
+    `inYears := fun _ => true`).  Trusted standard-library behaviour: a PARAMETER, with its laws as an
+    explicit hypothesis of the theorems (`Rfc3339.Lawful` in `Lemmas/LexLemmas.lean`).
+    WHICH location matters: the hypothesis `Lawful` (round trip on every instant that passes the year test,
+    the years 1..9999 of the property pass it) is true of Go's `time` package for the UTC location and
+    FALSE for others — east of Greenwich the last hours of year 9999 are formatted with the five-digit year
+    10000, which `Parse` rejects, and for historical instants a location's offset has seconds that the
+    RFC 3339 offset drops (`Props/C04.lean`: `zone_east_not_lawful`, `zone_lmt_not_lawful`).  The writers
+    in /repo format in the LOCATION OF THE VALUE they are given, which for a value decoded from binary is
+    `time.Local`: the model is the library only when that is UTC (finding C04 `date-zone`; the proposed
+    repair formats in UTC, which makes the hypothesis true on every machine). -/
 structure Rfc3339 where
   format  : Int → Str
   parse   : Str → Option Int
@@ -71,10 +81,25 @@ structure Hint where
   enumTag : Int := 0
   mask    : Option Int := none
 
-abbrev Hints := Int → Hint
+/-- what the caller of the reader knows, POSITION BY POSITION: `H [] tag` is the hint for the element the
+    reader is on (asked for under `tag`), `H (i :: q) tag` the hint at path `q` below its `i`-th decoded
+    child.  A typed decoder picks `realtag` / `Bitmask` from the Go type of the field it is filling — which
+    for `AttributeValue` depends on the attribute NAME decoded just before, not on the element's tag —, so
+    the hint is a function of the position in the message and not of the tag alone (`Hints.ofTag` embeds
+    the hints that only look at the tag). -/
+abbrev Hints := List Nat → Int → Hint
 
 /-- the generic decoder `ttlv.Value`: `d.Enum(0, tag)`, never `d.Bitmask`. -/
-def noHints : Hints := fun _ => {}
+def noHints : Hints := fun _ _ => {}
+
+/-- hints that depend on the tag only. -/
+def Hints.ofTag (f : Int → Hint) : Hints := fun _ t => f t
+
+/-- the hints for the children of the current element, child by child. -/
+def Hints.child (H : Hints) : Nat → Hints := fun i q => H (i :: q)
+
+/-- the hints for the children after the first. -/
+def hintsTail (Hs : Nat → Hints) : Nat → Hints := fun k => Hs (k + 1)
 
 /-! ## 1. trees -/
 
@@ -455,13 +480,13 @@ def drain : Nat → XCur → Res XCur
       drain f c'
 
 mutual
-  /-- `Value.TagDecodeTTLV(d, tag)` over an `xmlReader`. -/
-  def xDecodeValue (T : Tables) (R : Rfc3339) (H : Hints) : Nat → XCur → Int → Res (XItem × XCur)
-    | 0, _, _ => .err .other
-    | fuel + 1, c, tag =>
+  /-- `Value.TagDecodeTTLV(d, tag)` over an `xmlReader`; `H` = the caller's hints at this position. -/
+  def xDecodeValue (T : Tables) (R : Rfc3339) : Hints → Nat → XCur → Int → Res (XItem × XCur)
+    | _, 0, _, _ => .err .other
+    | H, fuel + 1, c, tag =>
       match c.ty with
       | 2 =>
-        match (H tag).mask with
+        match (H [] tag).mask with
         | none => do let (v, c') ← c.scalar T 2 tag xInteger; pure (.int tag v, c')
         | some m => do
           let (v, c') ← c.scalar T 2 tag (xMask (maskByN T (effTag m tag)))
@@ -472,8 +497,8 @@ mutual
       | 8 => do let (v, c') ← c.scalar T 8 tag xBytes; pure (.bytes tag v, c')
       | 9 => do let (v, c') ← c.scalar T 9 tag (xDate R); pure (.date tag v, c')
       | 5 => do
-        let (v, c') ← c.scalar T 5 tag (xEnum (enumByN T (effTag (H tag).enumTag tag)))
-        pure (.enum tag (H tag).enumTag v, c')
+        let (v, c') ← c.scalar T 5 tag (xEnum (enumByN T (effTag (H [] tag).enumTag tag)))
+        pure (.enum tag (H [] tag).enumTag v, c')
       | 10 => do let (v, c') ← c.scalar T 10 tag xInterval; pure (.interval tag v, c')
       | 7 => do let (v, c') ← c.scalar T 7 tag xText; pure (.text tag v, c')
       | 1 =>
@@ -483,19 +508,20 @@ mutual
         | some _ =>
           if c.tag T ≠ tag then .err .tagMismatch else do
           let sub ← XCur.next { elem := none, rest := c.rest }
-          let (cs, sub') ← xDecodeFields T R H fuel sub
+          let (cs, sub') ← xDecodeFields T R H.child fuel sub
           let sub'' ← drain (sub'.rest.length + 1) sub'
           let c' ← XCur.next { elem := c.elem, rest := sub''.rest, entered := true }
           pure (.struct tag cs, c')
       | _ => .err .unsupported
-  /-- `Struct.TagDecodeTTLV`: `for d.Tag() != 0 { field.DecodeTTLV(d) }`. -/
-  def xDecodeFields (T : Tables) (R : Rfc3339) (H : Hints) : Nat → XCur → Res (List XItem × XCur)
-    | 0, _ => .err .other
-    | fuel + 1, c =>
+  /-- `Struct.TagDecodeTTLV`: `for d.Tag() != 0 { field.DecodeTTLV(d) }`; `Hs k` = the hints for the
+      `k`-th child still to be decoded. -/
+  def xDecodeFields (T : Tables) (R : Rfc3339) : (Nat → Hints) → Nat → XCur → Res (List XItem × XCur)
+    | _, 0, _ => .err .other
+    | Hs, fuel + 1, c =>
       if c.tag T = 0 then .ok ([], c)
       else do
-        let (it, c') ← xDecodeValue T R H fuel c (c.tag T)
-        let (rest, c'') ← xDecodeFields T R H fuel c'
+        let (it, c') ← xDecodeValue T R (Hs 0) fuel c (c.tag T)
+        let (rest, c'') ← xDecodeFields T R (hintsTail Hs) fuel c'
         pure (it :: rest, c'')
 end
 
@@ -678,13 +704,13 @@ def jMask (byName : Table) : Option JVal → Res Int
   | _ => .err .other
 
 mutual
-  /-- `Value.TagDecodeTTLV(d, tag)` over a `jsonReader`. -/
-  def jDecodeValue (T : Tables) (R : Rfc3339) (H : Hints) : Nat → JCur → Int → Res (XItem × JCur)
-    | 0, _, _ => .err .other
-    | fuel + 1, c, tag =>
+  /-- `Value.TagDecodeTTLV(d, tag)` over a `jsonReader`; `H` = the caller's hints at this position. -/
+  def jDecodeValue (T : Tables) (R : Rfc3339) : Hints → Nat → JCur → Int → Res (XItem × JCur)
+    | _, 0, _, _ => .err .other
+    | H, fuel + 1, c, tag =>
       match c.ty with
       | 2 =>
-        match (H tag).mask with
+        match (H [] tag).mask with
         | none => do let (v, c') ← c.scalar T 2 tag jInteger; pure (.int tag v, c')
         | some m => do
           let (v, c') ← c.scalar T 2 tag (jMask (maskByN T (effTag m tag)))
@@ -695,8 +721,8 @@ mutual
       | 8 => do let (v, c') ← c.scalar T 8 tag jBytes; pure (.bytes tag v, c')
       | 9 => do let (v, c') ← c.scalar T 9 tag (jDate R); pure (.date tag v, c')
       | 5 => do
-        let (v, c') ← c.scalar T 5 tag (jEnum (enumByN T (effTag (H tag).enumTag tag)))
-        pure (.enum tag (H tag).enumTag v, c')
+        let (v, c') ← c.scalar T 5 tag (jEnum (enumByN T (effTag (H [] tag).enumTag tag)))
+        pure (.enum tag (H [] tag).enumTag v, c')
       | 10 => do let (v, c') ← c.scalar T 10 tag jInterval; pure (.interval tag v, c')
       | 7 => do let (v, c') ← c.scalar T 7 tag jText; pure (.text tag v, c')
       | 1 =>
@@ -707,18 +733,18 @@ mutual
           if c.tag T ≠ tag then .err .tagMismatch else
           match c.get sValue with
           | some (.arr st) => do
-            let cs ← jDecodeFields T R H fuel { value := st }
+            let cs ← jDecodeFields T R H.child fuel { value := st }
             pure (.struct tag cs, c.next)
           | _ => .err .other
       | _ => .err .unsupported
   /-- `Struct.TagDecodeTTLV`: `for d.Tag() != 0 { … }`; what the loop leaves unread is dropped. -/
-  def jDecodeFields (T : Tables) (R : Rfc3339) (H : Hints) : Nat → JCur → Res (List XItem)
-    | 0, _ => .err .other
-    | fuel + 1, c =>
+  def jDecodeFields (T : Tables) (R : Rfc3339) : (Nat → Hints) → Nat → JCur → Res (List XItem)
+    | _, 0, _ => .err .other
+    | Hs, fuel + 1, c =>
       if c.tag T = 0 then .ok []
       else do
-        let (it, c') ← jDecodeValue T R H fuel c (c.tag T)
-        let rest ← jDecodeFields T R H fuel c'
+        let (it, c') ← jDecodeValue T R (Hs 0) fuel c (c.tag T)
+        let rest ← jDecodeFields T R (hintsTail Hs) fuel c'
         pure (it :: rest)
 end
 
